@@ -6,7 +6,8 @@ From RxModel Require Export Finalize.
 Local Open Scope nat_scope.
 
 Record fspec := { f_alive : bool; f_items : nat; f_fired : bool }.
-Definition fspec0 : fspec := {| f_alive := true; f_items := 0; f_fired := false |}.
+Definition fspec1 (connected : bool) : fspec := {| f_alive := connected; f_items := 0; f_fired := false |}.
+Definition fspec0 : fspec := fspec1 true.
 
 Definition is_next (e : ev) : bool := match e with Next _ => true | _ => false end.
 
@@ -70,3 +71,5 @@ Fixpoint zrun_segs (sh : fshape) (s : zstate) (sts : list zstim) : list (list zo
   end.
 
 Definition run_finalize_segs (sh : fshape) (sts : list zstim) : list (list zout) := zrun_segs sh zstate0 sts.
+Definition run_finalize_segs_from (connected : bool) (sh : fshape) (sts : list zstim) : list (list zout) :=
+  zrun_segs sh (zstate1 connected) sts.
